@@ -150,6 +150,10 @@ func wireCheckCommon(portScan bool) bool {
 	}
 	verifAssert(wireConf.rateCount == wireRate && wireConf.rateWindow == wireWindow, "the parsed --rate does not reach the engine configuration")
 	verifAssert(wireConf.exitDelay == wireDelay, "--exit-delay does not reach the engine configuration")
+	if wireVia == "port" || wireConf.vpnMode || wireVPN {
+		// IP-level scans: raw-IP framing is selected exactly when the source has no hardware address
+		verifAssert(wireConf.vpnMode == wireVPN, "raw-IP (VPN) mode does not reach the packet source configuration")
+	}
 	return true
 }
 
@@ -160,8 +164,11 @@ var wireTCPReply = []byte{0x10, 0x11, 0x12, 0x13, 0x14, 0x15, 0x00, 0x0c, 0x29, 
 // VerifH_C03_wireTCP: the fin / null / xmas / flags commands (CMD 0..3).
 func VerifH_C03_wireTCP() {
 	wireReset()
-	wireVPN = false
-	wireRec, wirePerr, wireProbe = nil, nil, wireFeed(wireTCPReply)
+	frame := wireTCPReply
+	if wireVPN {
+		frame = wireTCPReply[14:] // an interface without hardware address: raw-IP framing
+	}
+	wireRec, wirePerr, wireProbe = nil, nil, wireFeed(frame)
 	var err error
 	want := ""
 	switch verifParam("CMD", 0) {
@@ -209,8 +216,11 @@ var wireICMPReply = []byte{0x10, 0x11, 0x12, 0x13, 0x14, 0x15, 0x00, 0x0c, 0x29,
 // VerifH_C03_wireICMP: the icmp (CMD 0) and udp (CMD 1) commands.
 func VerifH_C03_wireICMP() {
 	wireReset()
-	wireVPN = false
-	wireRec, wirePerr, wireProbe = nil, nil, wireFeed(wireICMPReply)
+	frame := wireICMPReply
+	if wireVPN {
+		frame = wireICMPReply[14:]
+	}
+	wireRec, wirePerr, wireProbe = nil, nil, wireFeed(frame)
 	udpCmd := verifParam("CMD", 0) == 1
 	var err error
 	if udpCmd {
@@ -243,6 +253,7 @@ func VerifH_C03_wireICMP() {
 // VerifH_C03_wireARP: the arp command, with and without --live.
 func VerifH_C03_wireARP() {
 	wireReset()
+	wireVPN = false // ARP is a link-layer scan: no raw-IP mode
 	wireProbe = nil
 	c := newARPCmd()
 	live := ndBool("live")
